@@ -123,6 +123,41 @@ def gen_cases(tier, rng):
         others = [v for v in g["V"] if v not in (x, y)]
         qs.append([x, y, [], others, [list(z) for z in gr.subsets(others)]])
         yield {"kind": "undchain", "g": g, "qs": qs, "oracle": True}
+    # REPEAT stream: warm-up on a neighbour graph, in-place edit of the same object, then the judged queries
+    for j, c in enumerate(small):
+        yield dict(c, kind=c["kind"] + ":rep", rep=1000 + j)
+    # custom edge-type names passed explicitly (beyond the property's quantifier; cheap)
+    for j, c in enumerate(small):
+        if j % 2 == 0:
+            yield dict(c, kind=c["kind"] + ":names", names=CUSTOM_NAMES)
+    # 5-node shapes: two parallel directed chains x -> i -> y, x -> p -> q -> y under every labelling of 0..4, I non-empty
+    import itertools as _it
+    for j, perm in enumerate(_it.permutations(range(5))):
+        x, i1, y, p1, q1 = perm
+        g = gr.G(range(5), D=[(x, i1), (i1, y), (x, p1), (p1, q1), (q1, y)])
+        rest = [i1, p1, q1]
+        qs = [[x, y, [v], rest, [sorted(z) for z in gr.subsets(rest) if v in z]] for v in rest]
+        qs.append([x, y, [], rest, [sorted(z) for z in gr.subsets(rest)]])
+        c = {"kind": "chains5", "g": g, "qs": qs, "oracle": True, "_order": j}
+        if j % 3 == 0:
+            c["rep"] = 5000 + j
+        yield c
+    # dense 5-node DAGs / ADMGs with non-empty I (several parents, most of V anterior)
+    for j in range(150 if tier == "quick" else 1500):
+        kinds = gr.DAG_KINDS if j % 2 == 0 else gr.ADMG_KINDS
+        g = gr.random_kinds_graph(rng, 5, kinds, p_edge=rng.choice([0.5, 0.7]))
+        qs = []
+        for _ in range(4):
+            x, y = rng.sample(g["V"], 2)
+            rest = [v for v in g["V"] if v not in (x, y)]
+            I = sorted(rng.sample(rest, rng.randint(1, 2)))
+            qs.append([x, y, I, rest, [sorted(z) for z in gr.subsets(rest) if set(I) <= set(z)]])
+        c = {"kind": "dense5", "g": g, "qs": qs, "oracle": True, "_order": j}
+        if j % 4 == 0:
+            c["rep"] = 7000 + j
+        if j % 5 == 1:
+            c["argkind"] = "frozenset"
+        yield c
     # label families: the failure "node used as an iterable" depends on the label type
     for j, c in enumerate(small):
         for lab in LABS:
@@ -137,6 +172,10 @@ def gen_cases(tier, rng):
         c = {"kind": "rand", "g": g, "qs": queries_rand(g["V"], rng), "oracle": n <= 6}
         if i % 4 == 3:
             c["_lab"] = LABS[(i // 4) % len(LABS)]
+        if i % 4 == 1:
+            c["rep"] = 9000 + i
+        if i % 8 == 2:
+            c["names"] = CUSTOM_NAMES
         yield c
 
 
@@ -152,30 +191,70 @@ def decode(case, v):
     return out
 
 
-def run_impl(case):
+CUSTOM_NAMES = ["dir", "bidir", "undir"]
+
+
+def build(g, case):
+    """MixedEdgeGraph for g; case["names"] = custom layer names [directed, bidirected, undirected] (passed explicitly to the API)"""
+    names = case.get("names")
+    if not names:
+        M, lab, inv = gr.to_mixed(g, case)
+        return M, lab, inv, {}, dict(gr.LAYER_NAMES)
     import networkx as nx
     import pywhy_graphs.networkx as pywhy_nx
-    M, lab, inv = gr.to_mixed(case["g"], case)
-    before = gr.snapshot(M)
+    M = pywhy_nx.MixedEdgeGraph(graphs=[nx.DiGraph(), nx.Graph(), nx.Graph()], edge_types=list(names))
+    lmap = {"D": names[0], "B": names[1], "U": names[2]}
+    lab, inv = gr._fill(M, g, case, lmap)
+    kw = {"directed_edge_name": names[0], "bidirected_edge_name": names[1], "undirected_edge_name": names[2]}
+    return M, lab, inv, kw, lmap
+
+
+def _queries(M, lab, inv, kw, qs, argkind=None):
+    import networkx as nx
+    import pywhy_graphs.networkx as pywhy_nx
+    mk = frozenset if argkind == "frozenset" else set
     res = []
-    for x, y, I, R, Zs in case["qs"]:
+    for x, y, I, R, Zs in qs:
         try:
-            z = pywhy_nx.minimal_m_separator(M, lab(x), lab(y), i={lab(v) for v in I}, r={lab(v) for v in R})
+            z = pywhy_nx.minimal_m_separator(M, lab(x), lab(y), i=mk(lab(v) for v in I), r=mk(lab(v) for v in R), **kw)
             ms = None if z is None else sorted(inv(v) for v in z)
         except Exception as e:  # noqa
             ms = "exc:" + type(e).__name__
         ism = []
         for Z in Zs:
             try:
-                b = pywhy_nx.is_minimal_m_separator(M, lab(x), lab(y), {lab(v) for v in Z},
-                                                    i={lab(v) for v in I}, r={lab(v) for v in R})
+                b = pywhy_nx.is_minimal_m_separator(M, lab(x), lab(y), mk(lab(v) for v in Z),
+                                                    i=mk(lab(v) for v in I), r=mk(lab(v) for v in R), **kw)
                 ism.append(int(bool(b)))
             except nx.NetworkXError:
                 ism.append(2)
             except Exception as e:  # noqa
                 ism.append("exc:" + type(e).__name__)
         res.append({"minsep": ms, "ismin": ism})
-    return {"res": res, "mutated": gr.snapshot(M) != before}
+    return res
+
+
+def run_impl(case):
+    import random
+    g = case["g"]
+    rep = case.get("rep")
+    g0 = gr.perturb(g, random.Random(rep)) if rep is not None else None
+    if g0 is not None:
+        # REPEAT: warm up on a neighbour graph (same node and edge counts), edit the SAME object in place, then judge
+        M, lab, inv, kw, lmap = build(g0, case)
+        for v in g["V"]:
+            lab(v)
+        _queries(M, lab, inv, kw, case["qs"], case.get("argkind"))
+        gr.morph(M, g0, g, lab, lmap)
+    else:
+        M, lab, inv, kw, lmap = build(g, case)
+    before = gr.snapshot(M)
+    res = _queries(M, lab, inv, kw, case["qs"], case.get("argkind"))
+    out = {"res": res, "mutated": gr.snapshot(M) != before}
+    if rep is not None and rep % 2 == 1:
+        # the same queries on a copy taken after the warm-up must agree
+        out["copy_differs"] = _queries(M.copy(), lab, inv, kw, case["qs"], case.get("argkind")) != res
+    return out
 
 
 def _expected_ismin(q, mins):
@@ -236,6 +315,8 @@ def compare(case, impl, model):
         return d[0][1]
     if impl["mutated"]:
         return "argument-mutated"
+    if impl.get("copy_differs"):
+        return "copy-after-warm-up"
     return None
 
 
@@ -247,6 +328,10 @@ def classify(case, impl, model):
     if not d or any(o == "model-vs-oracle" for _, o, _ in d):
         return None
     k, obs, det = d[0]
+    if case.get("names"):
+        return "custom-edge-type-names:" + obs + ":" + det
+    if case.get("rep") is not None:
+        return "second-call-on-edited-object:" + obs + ":" + det
     if det.startswith("exc:"):
         return "m_separated-call:node-passed-as-set:" + det[4:]
     if obs == "minsep":
@@ -261,7 +346,7 @@ def nontrivial(case, model):
 
 
 def key(case):
-    return (gr.canon(case["g"]), case.get("_lab", "int"))
+    return (gr.canon(case["g"]), case.get("_lab", "int"), case.get("rep"), tuple(case.get("names") or ()), case.get("argkind"))
 
 
 def shrink(case):
